@@ -610,6 +610,7 @@ class NearestNeighborModel(Model):
                 continue
             j = (i - 1) % L
             Hb = Hb.transpose(['p0', 'p0*', 'p1', 'p1*'])
+            norm_Hb = npc.norm(Hb)
             d_L, d_R = sites[j].dim, sites[i].dim  # dimension of local hilbert space:
             Id_L, Id_R = sites[j].Id, sites[i].Id
             if i == 0:  # i==0 and j==(-1 % L)==L-1
@@ -624,8 +625,8 @@ class NearestNeighborModel(Model):
             if npc.norm(onsite_R) > tol_zero:
                 Hb -= npc.outer(Id_L, onsite_R)
                 onsite_terms[i] = add_with_None_0(onsite_terms[i], onsite_R)
-            if npc.norm(Hb) < tol_zero:
-                continue
+            if npc.norm(Hb) < max(tol_zero, 1.0e-14 * norm_Hb):
+                continue  # nothing but the rounding errors of the subtractions above is left
             Hb = Hb.combine_legs([['p0', 'p0*'], ['p1', 'p1*']])
             chinfo = Hb.chinfo
             qtotal = [chinfo.make_valid(), chinfo.make_valid()]  # zero charge
